@@ -241,7 +241,7 @@ def handover_once(plan_, nlog, nmsg, nprebuf, in_action):
     workers = {"L%d" % t: logger(t) for t in range(nlog)}
     workers["A"] = adder
     st, errs = sched.run_schedule(plan_, workers, timeout=60.0)
-    return {"stats": {"events": st["events"], "fired": st["fired"], "aborted": st["aborted"], "trace": st["trace"], "steps": st["steps"]},
+    return {"stats": {"events": st["events"], "fired": st["fired"], "aborted": st["aborted"], "deadlock": st["deadlock"], "trace": st["trace"], "steps": st["steps"]},
             "errors": {k: repr(v) for k, v in errs.items()}, "returned": {str(k): v for k, v in returned.items()}, "tape": tape}
 
 
@@ -288,10 +288,13 @@ def part_handover(spec, res):
             st = None
         else:
             st = data["stats"]
-            if st["aborted"]:
+            if st["deadlock"]:
+                problems.append("logging / add_destinations deadlocked: %s" % st["deadlock"])
+            elif st["aborted"]:
                 res["inconclusive"] = "schedule abandoned: %s" % st["aborted"]
                 return st
-            judge_handover(data, nlog, nprebuf, problems)
+            else:
+                judge_handover(data, nlog, nprebuf, problems)
             res["sets"]["interleavings"].append(h(st["trace"]))
             for nm, k, loc in st["fired"]:
                 res["sets"]["preemption_lines"].append(loc)
